@@ -233,6 +233,8 @@ type call struct {
 	on     int  // pipelined: the call whose answer it is made on
 	pred   int  // -1 or the previous call of the same caller
 	field  uint16
+	psend  bool // pipelined call made with PipelineSend: its Returner is the library's structReturner + Promise,
+	// and calls pipelined on it go through that Promise (ongoingCalls)
 	slow   bool // pipelined: if delivered by the drain loop, the target withholds its delivery acknowledgement (Recv blocks) until decision K
 	self   bool // direct call whose result capabilities are the server itself (directed corpus cases only)
 
@@ -282,6 +284,7 @@ type hist struct {
 	max   int
 	qs    int
 	fixed int
+	stress bool // generateStress history: keep call 0 running until everything that can be issued has been
 	calls []*call
 	plan  []decision // replay only
 
@@ -323,8 +326,48 @@ func (h *hist) kindName() string {
 	return "pipelined-many"
 }
 
+// generateStress: call 0 acknowledges and keeps running; exactly AnswerQueueSize calls are queued
+// on its answer (sizes 1, 2 and the default 8); then 0..2 more calls, on the answer itself (first
+// level) or on the answer of a queued call (second level), find the queue full and block until
+// the drain starts; call 0 returns ok or an error.
+func (h *hist) generateStress() {
+	r := h.rng
+	h.stress = true
+	h.max = 1 + r.Intn(3)
+	h.qs = []int{1, 1, 2, 8, 8}[r.Intn(5)]
+	h.fixed = 1
+	add := func(c *call) {
+		c.id = len(h.calls)
+		c.pred = -1
+		h.calls = append(h.calls, c)
+	}
+	add(&call{direct: true, send: r.Intn(3) == 0})
+	for k := 0; k < h.qs; k++ {
+		add(&call{on: 0, field: fields[r.Intn(len(fields))], psend: r.Intn(3) != 0, slow: r.Intn(6) == 0})
+	}
+	over := r.Intn(3)
+	for k := 0; k < over; k++ {
+		on := 0
+		if r.Intn(3) != 0 {
+			on = 1 + r.Intn(h.qs) // second level: on the answer of a queued call
+		}
+		add(&call{on: on, field: fields[r.Intn(len(fields))], psend: r.Intn(2) == 0})
+	}
+	for k := r.Intn(3); k > 0; k-- {
+		if r.Intn(2) == 0 {
+			add(&call{direct: true})
+		} else {
+			add(&call{on: r.Intn(len(h.calls)), field: fields[r.Intn(len(fields))], psend: r.Intn(3) == 0})
+		}
+	}
+}
+
 func (h *hist) generate(i int) {
 	r := h.rng
+	if r.Intn(5) == 0 {
+		h.generateStress()
+		return
+	}
 	h.max = 1 + r.Intn(3)
 	h.qs = 1 + r.Intn(2)
 	if r.Intn(8) == 0 {
@@ -347,6 +390,7 @@ func (h *hist) generate(i int) {
 			c.on = r.Intn(id)
 			c.field = fields[r.Intn(len(fields))]
 			c.slow = r.Intn(3) == 0
+			c.psend = r.Intn(3) == 0
 		}
 		k := r.Intn(ncallers)
 		c.pred = last[k]
@@ -370,10 +414,19 @@ func (h *hist) header() string {
 			fmt.Fprintf(&sb, " d:%s:self", pr)
 		case c.direct:
 			fmt.Fprintf(&sb, " d:%s", pr)
-		case c.slow:
-			fmt.Fprintf(&sb, " p%d:%s:%d:slow", c.on, pr, c.field)
 		default:
-			fmt.Fprintf(&sb, " p%d:%s:%d", c.on, pr, c.field)
+			var fl []string
+			if c.slow {
+				fl = append(fl, "slow")
+			}
+			if c.psend {
+				fl = append(fl, "send")
+			}
+			if len(fl) > 0 {
+				fmt.Fprintf(&sb, " p%d:%s:%d:%s", c.on, pr, c.field, strings.Join(fl, "+"))
+			} else {
+				fmt.Fprintf(&sb, " p%d:%s:%d", c.on, pr, c.field)
+			}
 		}
 	}
 	return sb.String()
@@ -403,7 +456,10 @@ func (h *hist) parse(line string) {
 				x, _ := strconv.Atoi(s[2])
 				c.field = uint16(x)
 			}
-			c.slow = len(s) > 3 && s[3] == "slow"
+			if len(s) > 3 {
+				c.slow = strings.Contains(s[3], "slow")
+				c.psend = strings.Contains(s[3], "send")
+			}
 		}
 		h.calls = append(h.calls, c)
 	}
@@ -440,7 +496,7 @@ func (s shutdowner) Shutdown() {
 		h.flag("shutdown-before-calls-finished")
 	}
 	for _, c := range h.calls {
-		if c.began && len(c.completions) == 0 && !c.send {
+		if c.began && len(c.completions) == 0 && !c.viaAns() {
 			h.flag("shutdown-before-calls-finished")
 		}
 	}
@@ -548,11 +604,52 @@ func (t *target) Recv(ctx context.Context, r capnp.Recv) capnp.PipelineCaller {
 	return &fwd{h: h, of: id}
 }
 
+// Send is reached when a PipelineSend call finds the Promise it was made on already resolved.
 func (t *target) Send(ctx context.Context, s capnp.Send) (*capnp.Answer, capnp.ReleaseFunc) {
-	t.h.mu.Lock()
-	t.h.flag("unexpected-send-on-target")
-	t.h.mu.Unlock()
-	return capnp.ErrorAnswer(s.Method, capnp.Unimplemented("harness target: Send")), func() {}
+	sr := &promRet{}
+	pc := t.Recv(ctx, capnp.Recv{Method: s.Method, Args: argsFromSend(s), ReleaseArgs: func() {}, Returner: sr})
+	sr.p = capnp.NewPromise(s.Method, pc)
+	return sr.p.Answer(), func() {}
+}
+
+// promRet is the Returner behind target.Send / fwd.PipelineSend: it resolves a Promise.
+type promRet struct {
+	p   *capnp.Promise
+	res capnp.Struct
+}
+
+func (r *promRet) AllocResults(sz capnp.ObjectSize) (capnp.Struct, error) {
+	_, seg, err := capnp.NewMessage(capnp.SingleSegment(nil))
+	if err != nil {
+		return capnp.Struct{}, err
+	}
+	r.res, err = capnp.NewRootStruct(seg, sz)
+	return r.res, err
+}
+
+func (r *promRet) Return(e error) {
+	if e != nil {
+		r.p.Reject(e)
+		return
+	}
+	r.p.Fulfill(r.res.ToPtr())
+}
+
+func argsFromSend(s capnp.Send) capnp.Struct {
+	_, seg, err := capnp.NewMessage(capnp.SingleSegment(nil))
+	if err != nil {
+		panic(err)
+	}
+	st, err := capnp.NewRootStruct(seg, s.ArgsSize)
+	if err != nil {
+		panic(err)
+	}
+	if s.PlaceArgs != nil {
+		if err := s.PlaceArgs(st); err != nil {
+			panic(err)
+		}
+	}
+	return st
 }
 func (t *target) Brand() capnp.Brand { return capnp.Brand{} }
 func (t *target) Shutdown()          {}
@@ -601,10 +698,10 @@ func (f *fwd) PipelineRecv(ctx context.Context, transform []capnp.PipelineOp, r 
 }
 
 func (f *fwd) PipelineSend(ctx context.Context, transform []capnp.PipelineOp, s capnp.Send) (*capnp.Answer, capnp.ReleaseFunc) {
-	f.h.mu.Lock()
-	f.h.flag("unexpected-send-on-target")
-	f.h.mu.Unlock()
-	return capnp.ErrorAnswer(s.Method, capnp.Unimplemented("harness target: PipelineSend")), func() {}
+	sr := &promRet{}
+	pc := f.PipelineRecv(ctx, transform, capnp.Recv{Method: s.Method, Args: argsFromSend(s), ReleaseArgs: func() {}, Returner: sr})
+	sr.p = capnp.NewPromise(s.Method, pc)
+	return sr.p.Answer(), func() {}
 }
 
 // holdAck is called with h.mu held at the end of a delivery: a slow target that received a queued
@@ -635,6 +732,22 @@ func (h *hist) noteDelivery(p *call) {
 	}
 }
 
+// viaAns: the call was made with Send / PipelineSend; its completion is observed through its Answer.
+func (c *call) viaAns() bool { return (c.direct && c.send) || (!c.direct && c.psend) }
+
+// coarse: errors of this call may have passed through an Answer (annotated): only ok / err.
+func (h *hist) coarse(c *call) bool {
+	for {
+		if c.viaAns() {
+			return true
+		}
+		if c.direct {
+			return false
+		}
+		c = h.calls[c.on]
+	}
+}
+
 func (h *hist) rootOf(c *call) int {
 	for !c.direct {
 		c = h.calls[c.on]
@@ -661,7 +774,7 @@ func (r *ret) Return(e error) {
 	h.mu.Lock()
 	c := h.calls[r.id]
 	k := cls(e)
-	if h.calls[h.rootOf(c)].send && e != nil {
+	if h.coarse(c) && e != nil {
 		k = "err" // errors that passed through the root's Answer are annotated: only ok / err
 	}
 	c.completions = append(c.completions, k)
@@ -709,9 +822,39 @@ func (h *hist) issue(c *call) {
 			pc = h.srv.Recv(c.ctx, capnp.Recv{Method: meth, Args: argsFor(c.id), ReleaseArgs: func() {}, Returner: &ret{h, c.id}})
 		default:
 			on := h.calls[c.on]
-			r := capnp.Recv{Method: meth, Args: argsFor(c.id), ReleaseArgs: func() {}, Returner: &ret{h, c.id}}
 			tr := []capnp.PipelineOp{{Field: c.field}}
-			if on.direct && on.send {
+			if c.psend {
+				snd := capnp.Send{Method: meth, ArgsSize: capnp.ObjectSize{DataSize: 8},
+					PlaceArgs: func(s capnp.Struct) error { s.SetUint32(0, uint32(c.id)); return nil }}
+				var ans *capnp.Answer
+				var rel capnp.ReleaseFunc
+				if on.viaAns() {
+					ans, rel = on.ans.PipelineSend(c.ctx, tr, snd)
+				} else {
+					ans, rel = on.pc.PipelineSend(c.ctx, tr, snd)
+				}
+				h.mu.Lock()
+				c.ans, c.release = ans, rel
+				done := false
+				select {
+				case <-ans.Done():
+					done = true
+				default:
+				}
+				// queued iff neither delivered nor completed when PipelineSend returns
+				if !c.delivered && !done {
+					c.queued = true
+					c.enqSeq = h.enqCount
+					h.enqCount++
+					h.queuedAny = true
+				}
+				c.gotp = true
+				c.returned = true
+				h.mu.Unlock()
+				return
+			}
+			r := capnp.Recv{Method: meth, Args: argsFor(c.id), ReleaseArgs: func() {}, Returner: &ret{h, c.id}}
+			if on.viaAns() {
 				pc = on.ans.PipelineRecv(c.ctx, tr, r)
 			} else {
 				pc = on.pc.PipelineRecv(c.ctx, tr, r)
@@ -729,6 +872,15 @@ func (h *hist) issue(c *call) {
 		c.returned = true
 		h.mu.Unlock()
 	}()
+}
+
+func (h *hist) anyIssuable() bool {
+	for _, c := range h.calls {
+		if h.canIssue(c) {
+			return true
+		}
+	}
+	return false
 }
 
 func (h *hist) canIssue(c *call) bool {
@@ -749,7 +901,7 @@ func (h *hist) canIssue(c *call) bool {
 }
 
 func (h *hist) completed(c *call) bool {
-	if c.direct && c.send {
+	if c.viaAns() {
 		return c.sendDone
 	}
 	return len(c.completions) > 0
@@ -788,8 +940,16 @@ func (h *hist) available(step int) ([]decision, []int) {
 			if late || c.acked {
 				w = 4
 			}
+			we := 1 + w/4
+			if h.stress && c.id == 0 && !late {
+				// let the queue fill up and the overflow callers block first
+				w, we = 0, 0
+				if c.acked && !h.anyIssuable() {
+					w, we = 4, 4
+				}
+			}
 			add(decision{kind: 'R', c: c.id, err: false}, w)
-			add(decision{kind: 'R', c: c.id, err: true}, 1+w/4)
+			add(decision{kind: 'R', c: c.id, err: true}, we)
 		}
 		if !c.direct && c.blocked {
 			w := 3
@@ -912,7 +1072,7 @@ func (h *hist) observe() (string, string) {
 	h.mu.Lock()
 	defer h.mu.Unlock()
 	for _, c := range h.calls {
-		if c.direct && c.send && c.ans != nil && !c.sendDone {
+		if c.viaAns() && c.ans != nil && !c.sendDone {
 			select {
 			case <-c.ans.Done():
 				_, err := c.ans.Struct()
@@ -947,6 +1107,23 @@ func (h *hist) observe() (string, string) {
 		}
 		if c.began && !c.implRet && c.implCtx.Err() != nil {
 			canc = append(canc, fmt.Sprintf("c%d", c.id))
+		}
+	}
+	// liveness of the drain: once a method implementation has returned, its goroutine delivers or
+	// rejects the queued calls and completes the call before the bubble is quiescent - unless a
+	// slow target is holding a delivery (decision K pending)
+	for _, c := range h.calls {
+		if !c.direct || !c.implRet || h.completed(c) {
+			continue
+		}
+		held := false
+		for _, p := range h.calls {
+			if !p.direct && p.blocked && h.rootOf(p) == c.id {
+				held = true
+			}
+		}
+		if !held {
+			h.flag("return-blocked")
 		}
 	}
 	if h.shutCalls > 0 {
